@@ -2,7 +2,7 @@
 From stdpp Require Import gmap list.
 From Coq Require Import NArith ZArith.
 From VFS Require Import Core.Types Core.Calls Base.MemFS Base.PhysFS Base.Embedded
-  Proofs.MemProofs Proofs.MemCalls Proofs.MoreMem.
+  Proofs.MemProofs Proofs.MemCalls Proofs.MoreMem Proofs.PhysProofs Proofs.PhysTimes.
 
 Notation mstate := (gmap (list (list N)) memfile).
 
@@ -75,6 +75,33 @@ Theorem C19_embedded_unsupported : forall (s : embfs) c,
   mutating c = true -> emb_step c s = fail ENotSupported.
 Proof. exact emb_mutators_refused. Qed.
 
+(** on the modelled PhysicalFS the two supported setters round-trip the same way: exactly the value
+    in exactly that field of that entry (files and directories), metadata reports it, the other
+    field, the bytes and every other entry are untouched; a missing target changes nothing *)
+Theorem C19_physical_modification : forall (s : physfs), pwf (p_tree s) -> forall p n t,
+  p_tree s !! p = Some n ->
+  let s' := fst (phys_step (CSetMTime p t) s) in
+  snd (phys_step (CSetMTime p t) s) = Ok tt /\
+  p_tree s' !! p = Some (mkPNode (pn_kind n) (TSet t) (pn_atime n)) /\
+  (forall q, q <> p -> p_tree s' !! q = p_tree s !! q) /\
+  p_inodes s' = p_inodes s /\
+  (exists md, snd (phys_step (CMetadata p) s') = Ok md /\ m_modified md = Some (TSet t) /\ m_accessed md = Some (pn_atime n)).
+Proof. exact phys_set_mtime_roundtrip. Qed.
+Theorem C19_physical_access : forall (s : physfs), pwf (p_tree s) -> forall p n t,
+  p_tree s !! p = Some n ->
+  let s' := fst (phys_step (CSetATime p t) s) in
+  snd (phys_step (CSetATime p t) s) = Ok tt /\
+  p_tree s' !! p = Some (mkPNode (pn_kind n) (pn_mtime n) (TSet t)) /\
+  (forall q, q <> p -> p_tree s' !! q = p_tree s !! q) /\
+  p_inodes s' = p_inodes s /\
+  (exists md, snd (phys_step (CMetadata p) s') = Ok md /\ m_accessed md = Some (TSet t) /\ m_modified md = Some (pn_mtime n)).
+Proof. exact phys_set_atime_roundtrip. Qed.
+Theorem C19_physical_absent : forall (s : physfs), pwf (p_tree s) -> forall p t,
+  p_tree s !! p = None ->
+  fst (phys_step (CSetMTime p t) s) = s /\ fst (phys_step (CSetATime p t) s) = s /\
+  snd (phys_step (CSetMTime p t) s) <> Ok tt /\ snd (phys_step (CSetATime p t) s) <> Ok tt.
+Proof. exact phys_set_time_absent. Qed.
+
 Example C19_example :
   let s := fst (mem_step (CCreateDir [[97%N]]) mem_new) in
   snd (mem_step (CMetadata [[97%N]]) (fst (mem_step (CSetMTime [[97%N]] (-5)) (fst (mem_step (CSetCTime [[97%N]] 7) s))))) =
@@ -94,3 +121,6 @@ Print Assumptions C19_append_keeps_created.
 Print Assumptions C19_physical_creation_unsupported.
 Print Assumptions C19_embedded_unsupported.
 Print Assumptions C19_example.
+Print Assumptions C19_physical_modification.
+Print Assumptions C19_physical_access.
+Print Assumptions C19_physical_absent.
